@@ -248,9 +248,100 @@ package jlib
 //@   props C16 C17 C09
 //@   assigns nothing
 //@   trusted
+// replaceMatchFunc: the matches (all, or up to the limit) are replaced from the last to the first, so the offsets of
+// the earlier ones stay valid; a replacement template containing $ is expanded for every match (its groups differ
+// from match to match), a replacement function is called for every match.
+//@ func callReplaceFunc
+//@   props C17 C09
+//@   requires f != nil
+//@   ensures r1 != nil ==> len(r0) == 0
+//@   assigns heap
 //@ func replaceMatchFunc
 //@   props C17 C09
+//@   opaque-arith
+//@   owned matches
 //@   requires fn != nil
+//@   ensures [C17:error-has-no-result] r1 != nil ==> len(r0) == 0
+//@   assigns heap
+//@   atcall[C17:matches-of-the-whole-source-up-to-the-limit] extractMatches#0 requires callee_fn == fn && same(callee_s, src) && callee_limit == limit
+//@   atcall[C17:template-expanded-for-this-match] expandReplaceString#0 requires same(callee_s, srepl) && callee_m == matches[i]
+//@   atcall[C17:function-called-for-this-match] callReplaceFunc#0 requires callee_f == f && callee_m == matches[i]
+//@   loop 0 calls [C17:template-expanded-for-every-match] expandReplaceString#0 when (f == nil && expandable)
+//@   loop 0 calls [C17:function-called-for-every-match] callReplaceFunc#0 when f != nil
+//@   loop 0 invariant -1 <= i && i < len(matches) && local(matches) && err == nil
+//@   loop 0 invariant i >= 0 ==> matches[i].indexes[1] <= len(src)
+//@   loop 0 invariant forall k in [0, len(matches)): (0 <= matches[k].indexes[0] && matches[k].indexes[0] <= matches[k].indexes[1])
+//@   loop 0 invariant forall k in [1, len(matches)): matches[k - 1].indexes[1] <= matches[k].indexes[0]
+
+// $split with a regex: the text between consecutive matches; $contains: at least one match
+//@ func Split
+//@   props C17 C16 C09
+//@   opaque-arith
+//@   owned matches
+//@   ensures [C16:negative-limit-is-error] limit.Int < 0 ==> r1 != nil
+//@   ensures [C16:limit-respected] (r1 == nil && limit.isSet) ==> len(r0) <= limit.Int
+//@   assigns heap
+//@   atcall[C17:all-matches-of-the-source] extractMatches#0 requires same(callee_s, s) && callee_limit == -1
+//@   atcall[C16:library-split] strings.Split#0 requires same(callee_arg0, s)
+//@   loop 0 invariant -1 <= $i0 && 0 <= pos && pos <= len(s) && local(matches) && ($i0 >= 0 ==> pos == matches[$i0].indexes[1]) && ($i0 == -1 ==> pos == 0)
+//@   loop 0 invariant forall k in [0, len(matches)): (0 <= matches[k].indexes[0] && matches[k].indexes[0] <= matches[k].indexes[1] && matches[k].indexes[1] <= len(s))
+//@   loop 0 invariant forall k in [1, len(matches)): matches[k - 1].indexes[1] <= matches[k].indexes[0]
+//@ func Contains
+//@   props C17 C16 C09
+//@   ensures [C17:contains-iff-a-match] (r1 == nil && !typeis(ret("StringCallable.toInterface#0", 0), "string")) ==> r0 == (len(ret("extractMatches#0", 0)) > 0)
+//@   atcall[C17:all-matches-of-the-source] extractMatches#0 requires same(callee_s, s) && callee_limit == -1
+//@   atcall[C16:library-contains] strings.Contains#0 requires same(callee_arg0, s)
+
+// --- C17: regular-expression functions ----------------------------------------------------------------------------------------
+// runesToNumbers: the numbers spelled by the prefixes of a digit string (for "$12": 1 and 12); never negative, and at
+// least 1 when the first digit is not 0 - so that group number N-1 is a valid index or too large, never negative.
+//@ func runesToNumbers
+//@   props C17 C09
+//@   opaque-arith
+//@   requires forall k in [0, len(runes)): (48 <= runes[k] && runes[k] <= 57)
+//@   ensures len(result) == len(runes)
+//@   ensures [C17:group-numbers-not-negative] forall k in [0, len(result)): result[k] >= 0
+//@   ensures [C17:leading-nonzero-digit-is-positive] (len(runes) > 0 && runes[0] != 48) ==> (forall k in [0, len(result)): result[k] >= 1)
+//@   assigns nothing
+//@   loop 0 invariant -1 <= $i0 && len(nums) == len(runes) && local(nums) && (forall k in [0, len(nums)): nums[k] >= 0) && ((len(runes) > 0 && runes[0] != 48) ==> (forall k in [0, $i0 + 1): nums[k] >= 1))
+//@   loop 1 invariant 0 <= j && j <= i + 1 && 0 <= i && i < len(runes) && len(nums) == len(runes) && local(nums) && (forall k in [0, len(nums)): nums[k] >= 0) && ((len(runes) > 0 && runes[0] != 48) ==> ((forall k in [0, i): nums[k] >= 1) && (j > 0 ==> nums[i] >= 1)))
+
+// expandReplaceString: $0 is the match, $N the N-th group taking the longest group number that exists, $$ and a $
+// followed by anything else a dollar sign. All string cuts and group indexes are in range (group numbers come from
+// runesToNumbers after a non-zero first digit, so N-1 is never negative); the loop consumes the template.
+//@ func expandReplaceString
+//@   props C17 C09
+//@   opaque-arith
+//@   precise-append
+//@   atcall[C17:digits-only] runesToNumbers#0 requires len(callee_runes) >= 1 && callee_runes[0] != 48 && (forall k in [0, len(callee_runes)): (48 <= callee_runes[k] && callee_runes[k] <= 57))
+//@   loop 0 invariant true
+//@   loop 0 decreases len(s)
+//@   loop 1 invariant 0 <= $pos && $pos <= len(s) && len(digits) <= $pos && len(s) >= 1 && 49 <= runeAt(s, 0) && runeAt(s, 0) <= 57
+//@   loop 1 invariant $pos > 0 ==> len(digits) >= 1
+//@   loop 1 invariant forall k in [0, len(digits)): (48 <= digits[k] && digits[k] <= 57)
+//@   loop 1 invariant len(digits) >= 1 ==> digits[0] != 48
+//@   loop 2 invariant -1 <= i && i < len(indexes) && len(indexes) <= len(s) && (forall k in [0, len(indexes)): indexes[k] >= 1)
+
+// extractMatches / callMatchFunc: the matches a regex function value reports, in order, cut to the limit
+//@ pred matchesOK(ms []match, n int) = forall k in [0, len(ms)): (0 <= ms[k].indexes[0] && ms[k].indexes[0] <= ms[k].indexes[1] && ms[k].indexes[1] <= n && (k > 0 ==> ms[k - 1].indexes[1] <= ms[k].indexes[0]))
+//@ func extractMatches
+//@   props C17 C09
+//@   opaque-arith
+//@   requires fn != nil
+//@   ensures [C17:error-has-no-matches] r1 != nil ==> len(r0) == 0
+//@   ensures [C17:limit-respected] (r1 == nil && limit >= 0) ==> len(r0) <= limit
+//@   ensures [C17:all-matches-without-limit] (r1 == nil && limit < 0) ==> r0 == ret("callMatchFunc#0", 0)
+//@   ensures [C17:offsets-ascending-within-source] r1 == nil ==> (forall k in [0, len(r0)): (0 <= r0[k].indexes[0] && r0[k].indexes[0] <= r0[k].indexes[1] && r0[k].indexes[1] <= len(s)))
+//@   ensures [C17:matches-do-not-overlap] r1 == nil ==> (forall k in [1, len(r0)): r0[k - 1].indexes[1] <= r0[k].indexes[0])
+//@   assigns heap
+//@   loop 0 invariant -1 <= $i0 && 0 <= end && end <= len(s) && alloc(matches)
+//@   loop 0 invariant forall k in [0, $i0 + 1): (0 <= matches[k].indexes[0] && matches[k].indexes[0] <= matches[k].indexes[1] && matches[k].indexes[1] <= len(s) && matches[k].indexes[1] <= end)
+//@   loop 0 invariant forall k in [1, $i0 + 1): matches[k - 1].indexes[1] <= matches[k].indexes[0]
+//@   loop 0 invariant $i0 >= 0 ==> end == matches[$i0].indexes[1]
+//@ func callMatchFunc
+//@   props C17 C09
+//@   requires fn != nil
+//@   ensures r1 != nil ==> len(r0) == 0
 //@   assigns heap
 //@   trusted
 
